@@ -44,6 +44,16 @@ pub fn eval(s: &Spec) -> Eval {
     Ok(Report::new(s.input_len() >= 2).class(s.type_name()).class("in-process+threads"))
 }
 
+/// std-HashMap entry points only: eight new instances in this thread, each fed its own new map (own RandomState, own iteration order)
+pub fn eval_hashmap(s: &Spec) -> Eval {
+    let a = s.compute();
+    for i in 1..8 {
+        let b = if i % 4 == 3 { s.compute_with_history(true) } else { s.compute() };
+        ensure!(a == b, "{}: instance {} (same input through a new std HashMap, i.e. another iteration order) gives a different sketch than the first ({})", s.type_name(), i, describe_diff(&a, &b));
+    }
+    Ok(Report::new(s.input_len() >= 2).class(s.type_name()).class("hashmap-entry-point"))
+}
+
 /// child side: compute every spec of the batch
 pub fn child(inp: &Value) -> Value {
     let specs: Vec<Spec> = serde_json::from_value(inp["specs"].clone()).unwrap_or_default();
@@ -92,12 +102,14 @@ fn cross_process(ctx: &Ctx, specs: &[Spec], nproc: usize, sub: &str) {
 pub fn run(ctx: &Ctx) {
     ctx.set_rule("proptest generates a computation spec for every sketcher type of the crate (ProbMinHash2/3/3a/3aSha over u64 and String keys with every entry point incl. std HashMap, SuperMinHash f64/f32, SuperMinHash2 u64/u32, SetSketch u16/u32, \
         OptDens/RevOptDens f64/f32, ProbOrdMinHash2 with FNV/WyHash) with parameters and input. Oracle: the bit pattern of all sketch views is identical for (i) two new instances in one thread and an instance that was used before and reset, (ii) 16 new instances started together behind a barrier in 16 threads, \
-        (iii) new instances in freshly started child processes (new address space layout, new RandomState keys, new ThreadRng). Non-trivial = input of at least 2 items. Distinct = distinct serialised spec.");
+        (iii) new instances in freshly started child processes (new address space layout, new RandomState keys, new ThreadRng); sub-check hashmap-instances: the std-HashMap entry points only, eight instances each fed a new map of the same content (own RandomState, own iteration order). Non-trivial = input of at least 2 items. Distinct = distinct serialised spec.");
     ctx.assume("the harness does not own the scheduler: thread interleavings are sampled; the sketchers share no mutable state, what is hunted is hidden per-instance / per-thread / per-process input");
     super::run_fixed_tier(ctx, replay);
     let (cases, max_m, max_n) = ctx.tier.pick((6_000, 128, 300), (120_000, 512, 2000));
     // threads are spawned inside each case, so only a few shards
     ctx.drive("contexts", cases, 4, 300, || spec_strategy(max_m, max_n), eval);
+    let cases = ctx.tier.pick(30_000, 600_000);
+    ctx.drive("hashmap-instances", cases, 16, 300, || hashmap_spec_strategy(max_m, max_n), eval_hashmap);
     // cross-process batches: specs drawn from the same strategy with a seeded runner
     let (nspecs, nproc) = ctx.tier.pick((400, 3), (6000, 6));
     let mut runner = proptest::test_runner::TestRunner::new_with_rng(
@@ -120,7 +132,9 @@ pub fn run(ctx: &Ctx) {
 
 pub fn replay(ctx: &Ctx, sub: &str, case: &Value) -> Result<(), String> {
     let s: Spec = parse_case(case)?;
-    if sub == "processes" {
+    if sub == "hashmap-instances" {
+        ctx.run_fixed(sub, &s, eval_hashmap);
+    } else if sub == "processes" {
         cross_process(ctx, &[s], 3, sub);
     } else {
         ctx.run_fixed(sub, &s, eval);
